@@ -74,9 +74,28 @@
 //     unspecified -> absent), timestamp and duration in microseconds within
 //     1 us of the input. Tags, annotations and endpoints are not asserted.
 //   - Domain: strings are valid UTF-8 (protobuf string fields and JSON cannot
-//     carry anything else), attribute values are never INVALID, keys are not
-//     empty, the IDs of the span itself are valid, temporality is cumulative
-//     or delta, parents are either completely valid or have zero IDs.
+//     carry anything else), attribute values are never INVALID (such a value
+//     has no typed value to recover), the IDs of the span itself are valid,
+//     temporality is cumulative or delta, parents are either completely valid
+//     or have zero IDs.
+//   - Attribute keys: every attribute list (span, event, link, exemplar,
+//     data point, resource, scope, log record, log map value) draws keys from
+//     a short alphabet, so duplicates are frequent, and the empty key about 1
+//     time in 8..12. "Typed attribute values ... identical" is read as: the
+//     decoded list equals, as a multiset of (key, typed value), the list the
+//     public accessors of the object handed to the exporter report
+//     (ReadOnlySpan.Attributes, Event.Attributes, Link.Attributes,
+//     Exemplar.FilteredAttributes, attribute.Set, Record.WalkAttributes,
+//     Value.AsMap). Containers that refuse or merge such keys themselves
+//     (attribute.Set, Resource, the SDK log record's de-duplication) are
+//     thereby accounted for on the expected side; an exporter that filters
+//     on its own loses an item it was given (seeded change C13-r8b).
+//   - Sizes: "any number": 1 batch in 60..120 is log-uniformly large (up to
+//     600 spans / 300 records), 1 trace batch in 25 has spans with up to 160
+//     attributes / events / links (beyond the SDK's default limits of 128),
+//     1 log record in 80 up to 160 attributes (the Record keeps 5 inline),
+//     metrics 1 time in 50..100 up to 60 metrics per scope, 100 points, 400
+//     buckets / bounds, 100 quantiles, 40 exemplars.
 //
 // Infrastructure: see collector_test.go for the choice "collectors and
 // exporters cached per test process".
